@@ -21,7 +21,7 @@ RTR == "rtr"
 UA == Native("ua")   UB == Native("ub")   TA == Token("tA")
 Accts0 == {"own", "lp1", "trader", FAC, RTR, "tA"}
 
-MCKeyBytes(id) == CASE id = "ua" -> <<2>> [] id = "ub" -> <<3>> [] id = "tA" -> <<4, 4>> [] OTHER -> <<9>>
+MCKeyBytes(x) == LET id == x.id IN CASE id = "ua" -> <<2>> [] id = "ub" -> <<3>> [] id = "tA" -> <<4, 4>> [] OTHER -> <<9>>
 MCAddrOfIndex(n) == "c" \o ToString(n)
 
 StartBal(a) == CASE a = "lp1" -> 9 [] a = "trader" -> 4 [] OTHER -> 0
